@@ -19,6 +19,7 @@ var tiers = map[string][3]int{
 	"C07": {3000, 40000, 0},
 	"C14": {1500, 30000, 0},
 	"C04": {600, 8000, 0},
+	"C01": {300, 8000, 300},
 }
 
 func tierOf(id string, thorough bool) tierCfg {
@@ -65,5 +66,10 @@ func init() {
 	props["C04"] = propCfg{
 		Rule:        "1-2 files of valid programs (20% with one token mutation) rendered with the wild layout: any two tokens may be separated by spaces, tabs, \\v, \\f, LF/CRLF/CR, short comments, long comments of level 0-2 (single- and multi-line, with ASCII / Cyrillic / CJK / astral text), and literals include strings with every escape form, long-bracket strings and non-ASCII strings — so identifiers regularly follow such tokens on the same line. All checks are enabled. Every published diagnostic range, and every range returned by definition / references / documentHighlight / rename at each variable occurrence, documentSymbol of each file and workspace/symbol (each global name and the empty query) is checked against the client's own text: inside the document, start <= end, on UTF-16 boundaries; for results that designate a named entity (locations, highlights, rename edits, diagnostics of types 2/3/4/17) the text under the range must be exactly the identifier. Non-trivial: a workspace with an occurrence preceded on its line by a string, comment, tab or non-ASCII character; distinct by workspace text.",
 		Assumptions: append([]string{refluaAssume, "LF+CR is never generated (one line break for Lua, two lines for LSP)", "containment only is checked for ranges that designate statements or expressions"}, commonAssume...),
+	}
+	props["C01"] = propCfg{
+		FuzzTarget:  "FuzzSession",
+		Rule:        "chaos sessions: 1-3 files drawn from {valid program; 1-5 token mutations; byte splices (NUL, 0x80-0xFF, stray quotes/brackets); 40 hostile templates (10^3-10^4-deep nesting, unfinished strings/long brackets/comments at EOF, backslash at EOF, operator runs, malformed numerals, cyclic value chains); hostile annotation blocks (cyclic classes / aliases, enum blocks, broken generics/overloads); generated annotation lines with character corruptions; random bytes}; configuration = server default, random client flag subset with ignore lists (incl. invalid regular expressions), a well-typed random luahelper.json, or a broken / wrongly typed luahelper.json (a clean initialize error is accepted); then 5-40 conformant steps (didOpen, full and incremental didChange, save = disk write + didSave, didClose, watched-file create/change/delete with the disk operation, didChangeConfiguration, didChangeWorkspaceFolders) interleaved with every request kind at token starts/ends, line starts/ends, EOF, (0,0) and characters beyond the line end. Oracle: the process is alive, every request got a result or a JSON-RPC error within 20 s (re-run alone with 120 s and the default 1 GB stack before reporting), the parser's recover() swallowed no non-sentinel panic. Non-trivial: a session with a non-valid or annotated file and a request issued after an edit; distinct by case.",
+		Assumptions: append([]string{"executor stack limit 128 MiB (every stack overflow is re-confirmed under the default limit)", "non-conformant traffic is not generated"}, commonAssume...),
 	}
 }
